@@ -8,6 +8,8 @@
 package main
 
 import (
+	"fmt"
+
 	"verif/harness/c24/rpcsim"
 	"verif/harness/hc"
 )
@@ -42,7 +44,7 @@ func directed() []rpcsim.Directed {
 		{Sc: one("close-then-start", 2, closeG), Script: []string{"close 1", "start 1 1 7"}},
 		{Sc: one("graceful-close-waits", 2, closeG, res0), Script: []string{"start 1 1 7", "sret 1 ok", "close 1", "nres 0 1 100", "nrun 0", "nrun 0", "nrun 0", "nwrite 0 ok", "run 1", "run 1"}},
 		{Sc: one("cancel-sent-drop", 2, cancel), Script: []string{"start 1 1 7", "sret 1 ok", "cancel 1", "run 1", "run 1", "dret 1 ok"}},
-		{Sc: &rpcsim.Scenario{Name: "cancel-not-sent-no-drop", Cfg: rpcsim.Config{MaxRetries: 2, Interval: 3}, Can: true,
+		{Sc: &rpcsim.Scenario{Name: "cancel-not-sent-no-drop", Cfg: rpcsim.Config{MaxRetries: 2, Interval: 3}, Can: true, DropErr: true,
 			Calls: []rpcsim.Option{{Kind: "start", ID: 1, Seq: 1, Body: 7}}, Env: []rpcsim.Option{cancel}},
 			Script: []string{"start 1 1 7", "cancel 1", "sret 1 can", "run 1"}},
 		{Sc: one("cancel-and-result", 2, cancel, res0), Repeat: 20, Script: []string{
@@ -50,6 +52,29 @@ func directed() []rpcsim.Directed {
 		{Sc: one("cancel-and-fclose", 2, cancel, ack1, fclose), Repeat: 20, Script: []string{
 			"start 1 1 7", "sret 1 ok", "ack 1", "run 1", "cancel 1", "fclose 2", "run 1"}},
 	}
+}
+
+// ctxDirected: for every kind of caller context (plain cancel, cancel with a custom cause, expiring
+// deadline, timeout-with-cause under a cancelled parent, nested derived contexts) a cancellation
+// after the send and before the ack, one before the send returns, one after the ack, and an
+// already-cancelled context: Do must return exactly ctx.Err() and issue one drop request iff sent.
+func ctxDirected() []rpcsim.Directed {
+	var ds []rpcsim.Directed
+	for kind := 0; kind < rpcsim.NumCtxKinds; kind++ {
+		mk := func(name string, pre bool, env ...rpcsim.Option) *rpcsim.Scenario {
+			return &rpcsim.Scenario{Name: fmt.Sprintf("ctx-kind-%d-%s", kind, name), Cfg: rpcsim.Config{MaxRetries: 2, Interval: 3}, Can: true, DropErr: true,
+				Calls: []rpcsim.Option{{Kind: "start", ID: 1, Seq: 1, Body: 7, CtxKind: kind, PreCanc: pre}}, Env: env}
+		}
+		ds = append(ds,
+			rpcsim.Directed{Sc: mk("cancel-after-send", false, cancel), Script: []string{"start 1 1 7", "sret 1 ok", "cancel 1", "run 1", "run 1", "dret 1 ok"}},
+			rpcsim.Directed{Sc: mk("cancel-during-send", false, cancel), Script: []string{"start 1 1 7", "cancel 1", "sret 1 can", "run 1"}},
+			rpcsim.Directed{Sc: mk("cancel-after-ack", false, ack1, cancel), Script: []string{"start 1 1 7", "sret 1 ok", "ack 1", "run 1", "cancel 1", "run 1", "dret 1 err"}},
+			rpcsim.Directed{Sc: mk("cancel-during-resend", false, adv3, cancel), Script: []string{"start 1 1 7", "sret 1 ok", "adv 3", "run 1", "cancel 1", "sret 1 can", "run 1", "dret 1 ok"}},
+			rpcsim.Directed{Sc: mk("already-cancelled", true), Script: []string{"start 1 1 7", "sret 1 ok", "run 1", "run 1", "dret 1 ok"}},
+			rpcsim.Directed{Sc: mk("already-cancelled-send-fails", true), Script: []string{"start 1 1 7", "sret 1 can", "run 1"}},
+		)
+	}
+	return ds
 }
 
 func dfsScenarios() []*rpcsim.Scenario {
@@ -75,6 +100,9 @@ func run(c *hc.Ctx) error {
 			return s.Stats["cancel-pending"] > 0 || s.Stats["fclose-pending"] > 0 || s.Stats["close-pending"] > 0
 		}}
 	if err := k.RunDirected(directed()); err != nil {
+		return err
+	}
+	if err := k.RunDirected(ctxDirected()); err != nil {
 		return err
 	}
 	if err := k.RunRandom(c.N(5000, 300000)); err != nil {
